@@ -47,15 +47,14 @@ Lemma nested_branch_loses_value_refuted :
   exists prog sc, run_S 100 false prog sc = ([], OValue (VNum 1)) /\ run_I 1000 false prog sc = ([], OValue VUndef).
 Proof. exists w_n6, []. vm_compute. split; reflexivity. Qed.
 
-(* C08-N7: L1: { L2: { try { } finally { if (c()) break L2; break L1 } } ev 1 } ev 2   (function body, c() = true):
-   the finally list ends in a direct 'break L1', so the try block gets block.breaking = L1's block, and findBreakBlock
-   then resolves EVERY branch statement compiled while that try block is on the stack - including the nested
-   'break L2' inside the finally block itself - to L1's block: ev 1 is skipped *)
+(* C08-N7 (fixed in /repo by f0be104: block.breaking is cleared before the finally block is compiled; the model
+   follows): L1: { L2: { try { } finally { if (c()) break L2; break L1 } } ev 1 } ev 2  with c() = true *)
 Definition w_n7 :=
   sl [Labeled 1 (sl [Labeled 2 (sl [Try SNil false SNil true (sl [If (Break (Some 2)) (Block SNil); Break (Some 1)])]); Ev 1]); Ev 2].
-Lemma branch_in_breaking_finally_refuted :
-  exists prog sc, run_S 100 true prog sc = ([EEv 1; EEv 2], OValue VUndef) /\ run_I 1000 true prog sc = ([EEv 2], OValue VUndef).
-Proof. exists w_n7, [true]. vm_compute. split; reflexivity. Qed.
+Lemma branch_in_breaking_finally_regression :
+  run_I 1000 true w_n7 [true] = run_S 100 true w_n7 [true] /\
+  run_S 100 true w_n7 [true] = ([EEv 1; EEv 2], OValue VUndef).
+Proof. vm_compute. split; reflexivity. Qed.
 
 (* F12 (fixed in /repo by 22853aa; handleThrow drops the iterator stack for uncatchable payloads, and the model
    follows): unwinding an uncatchable payload emits no event - for EVERY VM state, try stack and payload *)
